@@ -45,6 +45,8 @@ def _blocks(stmts, out):
             subs = st[2:4]
         elif k == "with":
             subs = [st[2]]
+        elif k == "with2":
+            subs = [st[3]]
         elif k == "pick":
             subs = st[1]
         elif k == "try":
